@@ -133,8 +133,9 @@ def factorial_spec(levels, reps, seed=0, catkinds=None, numerics=("x", "z", "w")
         if kind == "str":
             cols.append({"name": name, "kind": "str", "values": vals})
         elif kind == "cat":
-            # unordered Categorical whose declared categories are deliberately not in sorted order
-            cols.append({"name": name, "kind": "cat", "values": vals, "categories": list(lv), "ordered": False})
+            # unordered Categorical whose declared categories are deliberately not in sorted order and, for odd seeds,
+            # include a category that never occurs (levels of unordered data are the observed values)
+            cols.append({"name": name, "kind": "cat", "values": vals, "categories": list(lv) + (["never"] if seed % 2 else []), "ordered": False})
         else:
             cols.append({"name": name, "kind": "cat", "values": vals, "categories": lv, "ordered": True})
     for j, name in enumerate(numerics):
